@@ -14,7 +14,7 @@ Local Open Scope list_scope.
 (* ------------------------------------------------------------------------------------------ *)
 (** 1. Every entry of the operator table computes the operation of the specification.
        (raw_outcome: division by zero -> ZeroDivisionError, negative shift -> ValueError,
-        negative exponent -> the library's FlipJumpExprException.) *)
+        negative exponent -> the library's FlipJumpExprException; the three callers wrap these.) *)
 Theorem C12_ops :
   (forall o a b, apply_op (binop_name o) [a; b] = raw_outcome (eval_bin o a b)) /\
   (forall u a, apply_op (unop_name u) [a] = Ok (eval_un u a)) /\
@@ -95,14 +95,13 @@ Theorem C12_constant_definition :
 Proof. exact define_const_spec. Qed.
 Print Assumptions C12_constant_definition.
 
-(* an exception outside the library's hierarchy can only come from the parser's folding
-   (that it does come from there is finding F7, property C14) *)
-Theorem C12_raw_exception_only_from_parser_folding :
+(* no exception from outside the library's hierarchy escapes from any of the three paths
+   (the model does not build the text of the error message: see the evidence's assumptions) *)
+Theorem C12_no_raw_exception :
   forall consts sms sts labels e st x,
-  Forall2 subst_represents sms sts ->
-  staged_trace consts sms labels e = (st, RawExn x) -> st = AtParse /\ parse_build consts e = RawExn x.
-Proof. exact raw_only_at_parse. Qed.
-Print Assumptions C12_raw_exception_only_from_parser_folding.
+  Forall2 subst_represents sms sts -> staged_trace consts sms labels e <> (st, RawExn x).
+Proof. exact no_raw_exception. Qed.
+Print Assumptions C12_no_raw_exception.
 
 (* ------------------------------------------------------------------------------------------ *)
 (** 4. The reference parser realises the documented table (finite domains, by computation). *)
@@ -222,7 +221,7 @@ Qed.
 (* the error is reported earlier, and differently, but it is an error on every path *)
 Example ex_error_reported_earlier :
   let e := SBin BAdd (SBin BShl (SInt 1) (SNeg (SId "x"))) (SBin BDiv (SInt 1) (SInt 0)) in
-  staged_trace no_env [] (env_of_list [("x", 3)]) e = (AtParse, RawExn ZeroDivisionError) /\
+  staged_trace no_env [] (env_of_list [("x", 3)]) e = (AtParse, LibError (ExprBadMath (Some ZeroDivisionError))) /\
   eval (env_of_list [("x", 3)]) e = Err NegativeShift /\
   staged_trace no_env [int_msubst (env_of_list [("x", 3)])] no_env (SBin BShl (SInt 1) (SNeg (SId "x")))
     = (AtSubst 0, LibError (ExprBadMath (Some ValueError))) /\
